@@ -815,3 +815,38 @@ Proof.
   split; [apply (built_add [] (s2b "/x") tt); [constructor | reflexivity]|].
   repeat split; reflexivity.
 Qed.
+
+(* ------------------------------------------------------------------ fuel is never exhausted *)
+Lemma match_until_shrinks : forall p d a b, match_until p d = (a, b) ->
+  (length b <= length p)%nat /\ (a <> [] -> (length b < length p)%nat).
+Proof.
+  intros p d a b. unfold match_until. destruct (index d p) as [i|] eqn:Hi; intros Hm; inversion Hm; subst.
+  - rewrite skipn_length. split; [lia|]. intros Ha.
+    destruct i as [|i]; [now cbn in Ha|]. destruct p as [|c p]; [now cbn in Ha|]. cbn [length]. lia.
+  - cbn. split; [lia | congruence].
+Qed.
+
+Lemma header_loop_fuel : forall n p h f1 f2, (length p <= n)%nat -> (n < f1)%nat -> (n < f2)%nat ->
+  header_loop f1 p h = header_loop f2 p h.
+Proof.
+  induction n as [|n IH]; intros p h f1 f2 Hp H1 H2;
+    (destruct f1 as [|f1]; [lia|]); (destruct f2 as [|f2]; [lia|]); cbn [header_loop].
+  - destruct p; [reflexivity | cbn in Hp; lia].
+  - destruct (isnil p); [reflexivity|]. destruct (has_prefix CRLF p); [reflexivity|].
+    destruct (match_until p COLSP) as [key tmp] eqn:Hk.
+    destruct (match_until_shrinks _ _ _ _ Hk) as [Hle Hlt].
+    set (p1 := if isnil key then p else tmp).
+    destruct (match_until p1 CRLF) as [value tmp2] eqn:Hv.
+    destruct (match_until_shrinks _ _ _ _ Hv) as [Hle2 _].
+    destruct (isnil key) eqn:Hnk; [reflexivity|]. cbn [orb].
+    destruct (isnil value) eqn:Hnv; [reflexivity|].
+    apply IH; try lia. subst p1. cbn [orb] in *.
+    assert (key <> []) by (destruct key; [discriminate | discriminate]).
+    specialize (Hlt H). lia.
+Qed.
+
+(* the fuel parse gives the loop (S (length buf)) is as good as any larger amount: the Go loop's
+   termination is not cut short by the model *)
+Lemma parse_fuel_adequate : forall p h k,
+  header_loop (S (length p)) p h = header_loop (S (length p) + k) p h.
+Proof. intros p h k. apply (header_loop_fuel (length p)); lia. Qed.
